@@ -4,6 +4,7 @@ CONSTANT InitOut <- InitEmpty
 CONSTANT MaxCrashes = 2
 CONSTANT MaxSessions = 3
 CONSTANT NormalExit = TRUE
+CONSTANT MaxWorkerKills = 0
 CONSTANT HeaderOnEmpty = TRUE
 CONSTANT OwnBuffer = TRUE
 CONSTANT HeaderNoClaim = TRUE
